@@ -961,6 +961,8 @@ func main() {
 	count := flag.Int("n", 300, "number of cases per family")
 	e2e := flag.Int("e2e", 3, "number of end-to-end scenarios")
 	rec := flag.Int("rec", 2, "number of refresh-recovery scenarios")
+	fu := flag.Int("fu", 2, "number of concurrent-first-use scenarios")
+	fuN := flag.Int("fun", 40, "fresh transports per first-use scenario")
 	flag.Parse()
 	r := rand.New(rand.NewSource(*seed))
 	out = bufio.NewWriterSize(os.Stdout, 1<<20)
@@ -981,5 +983,12 @@ func main() {
 			continue
 		}
 		runRecovery(r, i)
+	}
+	for i := 0; i < *fu; i++ {
+		if e2eSlow >= 3 || frozenSeen >= 3 || firstUseFrozen >= 3 {
+			emit("notrun", fmt.Sprintf("fu %x", i), "NOT-RUN", "breaker")
+			continue
+		}
+		runFirstUse(r, i, *fuN)
 	}
 }
